@@ -13,6 +13,8 @@ CONSTANTS
   Monitor = FALSE
   IdleMax = 2
   DevMonNoFeed = FALSE
+  Reactive = FALSE
+  DevNoSignalOnError = FALSE
   DevCloseWriterFallback = FALSE
   Emit = @@EMIT@@
   Classes = {1, 2, 3, 4}
